@@ -119,7 +119,9 @@ impl HeapSize for View {
         self.len
     }
 }
-const VIEW_LENS: [usize; 2] = [0, 40];
+/// the third length is not part of the general alphabets (VSEL = 2): it is what a mutate in the
+/// "filled" jobs grows a value to, so that one growing mutate evicts most of a 70-entry cache
+const VIEW_LENS: [usize; 3] = [0, 40, 3600];
 
 macro_rules! cmk {
     () => {
@@ -231,6 +233,40 @@ impl Inst for StringVec {
         let mut n = Vec::with_capacity([4, 64][sel]);
         n.extend_from_slice(&v[..4]);
         *v = n;
+    }
+}
+
+/// Keys whose borrowed form is unsized and whose Eq / Hash are coarser than byte equality:
+/// a path is equal to any other spelling of the same components ("d1/k" == "d1//k/" ==
+/// "d1/./k"). Stored under one spelling, looked up through another of a different length.
+const PATHS: [(&str, &str); 3] = [("d0/k", "d0//k/"), ("d1/key-with-a-longer-name", "d1/./key-with-a-longer-name"), ("k2", "k2/")];
+
+pub struct PathKeys;
+impl Inst for PathKeys {
+    type K = std::path::PathBuf;
+    type Q = std::path::Path;
+    type V = View;
+    type S = CBuild;
+    const NAME: &'static str = "LruCache<PathBuf, Copy value> looked up through another spelling of the same &Path";
+    const CLONE_BUMPS: bool = true;
+    cmk!();
+    fn key(id: u32) -> std::path::PathBuf {
+        std::path::PathBuf::from(PATHS[id as usize].0)
+    }
+    fn with_q<R>(id: u32, f: impl FnOnce(&std::path::Path) -> R) -> R {
+        f(std::path::Path::new(PATHS[id as usize].1))
+    }
+    fn kid(k: &std::path::PathBuf) -> u32 {
+        PATHS.iter().position(|n| std::path::Path::new(n.0) == k.as_path()).unwrap_or(99) as u32
+    }
+    fn val(tag: u32, sel: usize) -> View {
+        View { tag, len: VIEW_LENS[sel] }
+    }
+    fn vtag(v: &View) -> u32 {
+        v.tag
+    }
+    fn resize(v: &mut View, sel: usize) {
+        v.len = VIEW_LENS[sel];
     }
 }
 
@@ -814,6 +850,22 @@ impl<T: Inst> Run<T> {
         }
     }
 
+    /// A long periodic schedule: `pat` repeated until `steps` operations were executed, every
+    /// return value compared with the reference, the accounted total every 4096 steps.
+    fn churn(&mut self, pat: &[IOp], steps: usize) -> Option<String> {
+        for i in 0..steps {
+            let op = pat[i % pat.len()];
+            let (a, e) = self.step(op);
+            if a != e {
+                return Some(format!("step {i} of the periodic schedule {pat:?}: {op:?} returned {a:?}, a sequential map returns {e:?}"));
+            }
+            if i % 4096 == 4095 && self.c.current_size() != self.m.cur() {
+                return Some(format!("after {} steps of the periodic schedule {pat:?}: current_size() = {}, the sizes of the held entries add up to {}", i + 1, self.c.current_size(), self.m.cur()));
+            }
+        }
+        None
+    }
+
     /// after cloning: the clone's instances may have other size estimates than
     /// the originals (the accounted sizes are copied)
     fn refresh_actual(&mut self) {
@@ -1325,6 +1377,9 @@ struct Job {
     /// the cache starts with this many fresh entries (keys 0..n, alternating sizes), inserted
     /// without a per-step reference check (the small fills check every step)
     preload: usize,
+    /// after the preload: a periodic schedule (the pattern repeated until so many steps were
+    /// executed), every step compared with the reference
+    churn: Option<(Vec<IOp>, usize)>,
     /// position in the deterministic job list (containment records)
     id: u32,
     /// 0 = differential, 1 = fault injection
@@ -1632,6 +1687,11 @@ fn run_seq<T: Inst>(job: &Job, sm: [usize; 5], seq: &[IOp], out: &mut InstResult
         }
         let mut run: Run<T> = Run::new(if job.limit == 0 { usize::MAX } else { job.limit }, job.cap, job.hk, sm);
         run.preload(job.preload);
+        if let Some((pat, n)) = &job.churn {
+            if let Some(why) = run.churn(pat, *n) {
+                problems.push((p(4) | p(2), "C04.churn", why));
+            }
+        }
         for op in &job.prefix {
             let _ = run.step(*op);
         }
@@ -1649,7 +1709,9 @@ fn run_seq<T: Inst>(job: &Job, sm: [usize; 5], seq: &[IOp], out: &mut InstResult
         let pre_len = run.c.len();
         let pre_cap = run.c.capacity();
         let h0 = hashes();
+        crate::trap::quarantine_begin();
         let (act, exp) = run.step(last);
+        let waf = crate::trap::quarantine_end();
         let used = hashes() - h0 - run.hash_exclude;
         let d = run.c.verif_dump();
         // structure first: nothing below walks a broken list
@@ -1657,6 +1719,9 @@ fn run_seq<T: Inst>(job: &Job, sm: [usize; 5], seq: &[IOp], out: &mut InstResult
             problems.push((p(7) | own, "C07.structure", format!("the list/table structure is incoherent: {why}")));
             std::mem::forget(run);
             return (problems, "inst:broken");
+        }
+        if let Some(why) = waf {
+            problems.push((own | p(7), "C07.write-after-free", why));
         }
         if act != exp {
             problems.push((own | p(4), "C04.return", format!("returned {act:?}, a sequential map returns {exp:?}")));
@@ -1922,7 +1987,7 @@ pub fn explore_for(sel: Props, depth: usize, ladder: usize, deep: usize, huge: &
                 }
                 for (label, prefix) in &prefixes {
                     for (limit, cap) in [(usize::MAX, None), (0usize, Some(3usize))] {
-                        let job = Job { hk, limit, cap, depth, prefix: prefix.clone(), second_after: None, label, alpha: None, preload: 0, id: jobs.len() as u32, mode: 0, skips: skips.clone() };
+                        let job = Job { hk, limit, cap, depth, prefix: prefix.clone(), second_after: None, label, alpha: None, preload: 0, churn: None, id: jobs.len() as u32, mode: 0, skips: skips.clone() };
                         jobs.push(Box::new(move || run_job::<$t>(job)));
                     }
                 }
@@ -1940,6 +2005,7 @@ pub fn explore_for(sel: Props, depth: usize, ladder: usize, deep: usize, huge: &
                             label: "ladder",
                             alpha: None,
                             preload: 0,
+                            churn: None,
                             id: jobs.len() as u32,
                             mode: 0,
                             skips: skips.clone(),
@@ -1952,6 +2018,7 @@ pub fn explore_for(sel: Props, depth: usize, ladder: usize, deep: usize, huge: &
     }
     add!(U64View);
     add!(StringVec);
+    add!(PathKeys);
     add!(TrackedKeyView);
     add!(PlainKeyTracked);
     add!(FatTracked);
@@ -1972,7 +2039,7 @@ pub fn explore_for(sel: Props, depth: usize, ladder: usize, deep: usize, huge: &
                 for (limit, cap) in [(usize::MAX, None), (0usize, Some(3usize))] {
                     // one job per first operation, for parallelism
                     for first in &core {
-                        let job = Job { hk, limit, cap, depth: deep - 1, prefix: vec![*first], second_after: None, label: "first operation", alpha: Some(core.clone()), preload: 0, id: jobs.len() as u32, mode: 0, skips: skips.clone() };
+                        let job = Job { hk, limit, cap, depth: deep - 1, prefix: vec![*first], second_after: None, label: "first operation", alpha: Some(core.clone()), preload: 0, churn: None, id: jobs.len() as u32, mode: 0, skips: skips.clone() };
                         jobs.push(Box::new(move || run_job::<$t>(job)));
                     }
                 }
@@ -1989,7 +2056,9 @@ pub fn explore_for(sel: Props, depth: usize, ladder: usize, deep: usize, huge: &
                     let prefix: Vec<IOp> = (0..n as u32).map(|k| Insert(k, (k % 2) as usize)).collect();
                     let mut alpha = core.clone();
                     alpha.extend([Insert(n as u32, 0), Remove(n as u32 - 1), Get(n as u32 / 2), Reserve, Retain(1)]);
-                    let job = Job { hk, limit, cap, depth: deep - 2, prefix, second_after: None, label: "filled", alpha: Some(alpha), preload: 0, id: jobs.len() as u32, mode: 0, skips: skips.clone() };
+                    // one growing mutate that evicts most of the cache (LRU, middle and MRU entry)
+                    alpha.extend([Mutate(0, 2), Mutate(n as u32 / 2, 2), Mutate(n as u32 - 1, 2)]);
+                    let job = Job { hk, limit, cap, depth: deep - 2, prefix, second_after: None, label: "filled", alpha: Some(alpha), preload: 0, churn: None, id: jobs.len() as u32, mode: 0, skips: skips.clone() };
                     jobs.push(Box::new(move || run_job::<U64View>(job)));
                 }
             }
@@ -2000,7 +2069,35 @@ pub fn explore_for(sel: Props, depth: usize, ladder: usize, deep: usize, huge: &
     for hk in [HK::Spread, HK::Sip] {
         for n in huge.iter().copied() {
             // the longest jobs are started first (the queue is popped from the end)
-            let job = Job { hk, limit: usize::MAX, cap: None, depth: 1, prefix: vec![], second_after: None, label: "huge", alpha: None, preload: n, id: jobs.len() as u32, mode: 0, skips: skips.clone() };
+            let job = Job { hk, limit: usize::MAX, cap: None, depth: 1, prefix: vec![], second_after: None, label: "huge", alpha: None, preload: n, churn: None, id: jobs.len() as u32, mode: 0, skips: skips.clone() };
+            jobs.push(Box::new(move || run_job::<U64View>(job)));
+        }
+    }
+    // long periodic schedules: every pattern of period 1 and 2 over twelve operations and of
+    // period 3 over six of them, repeated for more than 2^16 steps (a counter that wraps, a
+    // slow drift of the accounting, capacity creep, tombstone build-up), every step compared
+    // with the reference; then each of five closing operations with the full state check
+    if deep > 1 {
+        let steps = if deep > 5 { 300_000 } else { 70_000 };
+        let calpha = [Insert(0, 0), Insert(1, 1), Insert(2, 0), Remove(0), Get(1), Mutate(1, 0), Mutate(1, 1), Touch(2), SetMax(2), SetMax(4), TryInsert(2, 0), RemoveLru];
+        let mut pats: Vec<Vec<IOp>> = vec![];
+        for a in calpha {
+            pats.push(vec![a]);
+            for b in calpha {
+                pats.push(vec![a, b]);
+            }
+        }
+        for a in &calpha[..6] {
+            for b in &calpha[..6] {
+                for c in &calpha[..6] {
+                    pats.push(vec![*a, *b, *c]);
+                }
+            }
+        }
+        let finals = vec![ReadAll, SetMax(0), ShrinkToFit, Insert(0, 1), Clear];
+        for (i, pat) in pats.into_iter().enumerate() {
+            let hk = if i % 2 == 0 { HK::Spread } else { HK::Const };
+            let job = Job { hk, limit: usize::MAX, cap: None, depth: 1, prefix: vec![], second_after: None, label: "churn", alpha: Some(finals.clone()), preload: 0, churn: Some((pat, steps)), id: jobs.len() as u32, mode: 0, skips: skips.clone() };
             jobs.push(Box::new(move || run_job::<U64View>(job)));
         }
     }
@@ -2041,6 +2138,9 @@ const FAULT_KINDS: [Cb; 9] = [Cb::HashK, Cb::HashQ, Cb::Eq, Cb::CloneK, Cb::Clon
 fn build_run<T: Inst>(job: &Job, sm: [usize; 5], seq: &[IOp]) -> Run<T> {
     let mut run: Run<T> = Run::new(if job.limit == 0 { usize::MAX } else { job.limit }, job.cap, job.hk, sm);
     run.preload(job.preload);
+    if let Some((pat, n)) = &job.churn {
+        let _ = run.churn(pat, *n);
+    }
     for op in &job.prefix {
         let _ = run.step(*op);
     }
@@ -2363,7 +2463,7 @@ pub fn explore_faults(depth: usize, ladder_sizes: &[usize], threads: usize, skip
                 }
                 for (label, prefix) in &prefixes {
                     for (limit, cap) in [(usize::MAX, None), (0usize, Some(3usize))] {
-                        let job = Job { hk, limit, cap, depth, prefix: prefix.clone(), second_after: None, label, alpha: None, preload: 0, id: jobs.len() as u32, mode: 1, skips: skips.clone() };
+                        let job = Job { hk, limit, cap, depth, prefix: prefix.clone(), second_after: None, label, alpha: None, preload: 0, churn: None, id: jobs.len() as u32, mode: 1, skips: skips.clone() };
                         jobs.push(Box::new(move || fault_job::<$t>(job)));
                     }
                 }
@@ -2372,6 +2472,7 @@ pub fn explore_faults(depth: usize, ladder_sizes: &[usize], threads: usize, skip
     }
     add!(U64View);
     add!(StringVec);
+    add!(PathKeys);
     add!(TrackedKeyView);
     add!(PlainKeyTracked);
     add!(FatTracked);
@@ -2385,7 +2486,7 @@ pub fn explore_faults(depth: usize, ladder_sizes: &[usize], threads: usize, skip
             for hk in [HK::Const, HK::Spread] {
                 for n in ladder_sizes.iter().copied() {
                     let prefix: Vec<IOp> = (0..n as u32).map(|k| Insert(k, (k % 2) as usize)).collect();
-                    let job = Job { hk, limit: usize::MAX, cap: None, depth: 1, prefix, second_after: None, label: "ladder", alpha: Some(walkers.clone()), preload: 0, id: jobs.len() as u32, mode: 1, skips: skips.clone() };
+                    let job = Job { hk, limit: usize::MAX, cap: None, depth: 1, prefix, second_after: None, label: "ladder", alpha: Some(walkers.clone()), preload: 0, churn: None, id: jobs.len() as u32, mode: 1, skips: skips.clone() };
                     jobs.push(Box::new(move || fault_job::<$t>(job)));
                 }
             }
